@@ -405,8 +405,8 @@ pub fn monitor(tier: Tier) -> Monitor {
             "a Debug-output difference alone is recorded as a warning (a behaviourally irrelevant cache would be legal)".into(),
         ],
         families: vec![
-            Family { name: "lzma", count: tier.pick(6_000, 150_000), priority: false, enumerated: false, run: fam_lzma },
-            Family { name: "lzma2", count: tier.pick(4_000, 100_000), priority: false, enumerated: false, run: fam_lzma2 },
+            Family { name: "lzma", count: tier.pick(25_000, 400_000), priority: false, enumerated: false, run: fam_lzma },
+            Family { name: "lzma2", count: tier.pick(15_000, 250_000), priority: false, enumerated: false, run: fam_lzma2 },
         ],
         label,
         floors,
